@@ -66,7 +66,10 @@ var jobTable = map[string]jobSet{
 		quick: []Job{
 			{Scenario: "close/N=2/k=2/closers=2", Budgets: bs(B(2, 0)), Split: 1},
 			{Scenario: "closestall/N=1/closers=2", Budgets: bs(B(2, 0)), Split: 1},
-			{Scenario: "closefull/N=1/closers=1", Budgets: bs(B(2, 0)), Split: 1},
+			{Scenario: "closefull/N=1/closers=1", Budgets: bs(B(1, 0)), Split: 1},
+			// boosted (adaptive) resend timeouts: a Close that sat out a resend
+			// interval would now take several seconds
+			{Scenario: "closestall/N=1/adaptive/until=14s", Budgets: bs(B(1, 0)), Split: 1},
 		},
 		thorough: []Job{
 			{Scenario: "close/N=2/k=2/closers=2", Budgets: bs(B(2, 0)), Split: 2},
